@@ -239,6 +239,10 @@ def judge_cases(ck, cases, opts=(1,), per=40, funcs=(), nearly=(), prefix="C01",
                 all_meta.append((len(all_recs) + m[0],) + m[1:4])
             all_recs += rnd_recs
         pending = nxt
+    # a pass must not be vacuous: when a large part of the (specified, hence well-formed) cases does not build, nothing was decided
+    if len(compile_failed) > max(5, len(cases) // 10):
+        k, stage, msg, src = compile_failed[0]
+        raise Infra("%d of %d specified cases did not build (first: %s, %s): %s" % (len(compile_failed), len(cases), k, stage, msg[-1200:]))
     return dict(n_cases=len(cases), n_progs=nprogs, compile_failed=compile_failed, unspec_cases=unspec_cases, records=all_recs, meta=all_meta)
 
 
